@@ -213,3 +213,14 @@ Definition verdict_core (c0 : N) (xs : list sin) (impl : list obs) : N :=
   if C18_ok xs impl then (if trace_eqb (weak [] xs (srun (sys0 c0) xs)) impl then 0%N else 1%N) else 2%N.
 Definition verdicts_core (cs : list (N * list sin * list obs)) : list N :=
   map (fun c => match c with (c0, xs, impl) => verdict_core c0 xs impl end) cs.
+
+(* shrinking: C18_ok is prefix-closed (SpecProofs.ok1_firstn), so a rejected case has a shortest rejected
+   prefix; the check reports its length with every failing case *)
+Fixpoint sf_go (n fuel : nat) (xs : list sin) (os : list obs) : nat :=
+  match fuel with
+  | 0 => n
+  | S f => if C18_ok (firstn n xs) (firstn n os) then sf_go (S n) f xs os else n
+  end.
+Definition shortest_fail (xs : list sin) (os : list obs) : nat := sf_go 1 (length xs) xs os.
+Definition shortest_fails (cs : list (N * list sin * list obs)) : list nat :=
+  map (fun c => match c with (_, xs, os) => shortest_fail xs os end) cs.
